@@ -1,176 +1,18 @@
 package c01
 
 import (
-	"context"
-	"fmt"
 	"testing"
 	"time"
 
-	"github.com/twmb/franz-go/pkg/kgo"
-
-	"verif/lib/netctl"
+	"verif/checks/c01/pscen"
 	"verif/lib/nrun"
-	"verif/lib/nscen"
 )
-
-// Scenario family P (DESIGN.md §4 C01): one idempotent producer, two brokers,
-// topic t with partitions led by different brokers, unknown topic u, thread T1
-// producing with Produce/TryProduce/ProduceSync, one disruptor thread.
-
-type state struct {
-	cl      *kgo.Client
-	led     *nscen.Ledger
-	hooks   *nscen.HookLedger
-	cancel2 context.CancelFunc
-	flushed chan error
-	closed  bool
-}
-
-func produceFaults(x *netctl.Exec, dir string, key int16, c *netctl.Conn) []string {
-	switch {
-	case key == 0 && dir == "req":
-		return []string{"killbefore", "err:6", "err:3", "err:10", "errafter:7", "stall"}
-	case key == 0 && dir == "resp":
-		return []string{"killafter"}
-	case (key == 3 || key == 22) && dir == "req":
-		return []string{"killbefore"}
-	case (key == 3 || key == 22) && dir == "resp":
-		return []string{"killafter"}
-	}
-	return nil
-}
-
-func scenario(name string, linger time.Duration, disrupt func(x *netctl.Exec, st *state, t *netctl.Thread)) *netctl.Scenario {
-	return &netctl.Scenario{
-		Name:    name,
-		Faults:  produceFaults,
-		Horizon: 4 * time.Minute,
-		Setup: func(x *netctl.Exec) {
-			c := x.Cluster(2, kfakeSeed()...)
-			c.MoveTopicPartition("t", 0, 0)
-			c.MoveTopicPartition("t", 1, 1)
-			st := &state{led: nscen.NewLedger(), hooks: nscen.NewHookLedger(), flushed: make(chan error, 4)}
-			x.Data = st
-			st.cl = nscen.NewClient(x, "p", c,
-				kgo.RecordPartitioner(kgo.ManualPartitioner()),
-				kgo.UnknownTopicRetries(2),
-				kgo.RecordRetries(4),
-				kgo.ProducerLinger(linger),
-				kgo.ProduceRequestTimeout(5*time.Second),
-				kgo.RecordDeliveryTimeout(90*time.Second),
-				kgo.WithHooks(st.hooks),
-			)
-			ctx2, cancel2 := context.WithCancel(context.Background())
-			st.cancel2 = cancel2
-			x.OnCleanup(cancel2)
-			rec := func(n, topic string, p int32) *kgo.Record {
-				r := &kgo.Record{Topic: topic, Partition: p, Value: []byte(n)}
-				st.led.Hand(n, r)
-				return r
-			}
-			x.Thread("T1", func(t *netctl.Thread) {
-				t.Step("produce-r1")
-				st.cl.Produce(context.Background(), rec("r1", "t", 0), st.led.Promise())
-				t.Step("produce-r2")
-				st.cl.Produce(ctx2, rec("r2", "t", 1), st.led.Promise())
-				t.Step("produce-r3")
-				st.cl.Produce(context.Background(), rec("r3", "u", 0), st.led.Promise())
-				t.Step("tryproduce-r4")
-				st.cl.TryProduce(context.Background(), rec("r4", "t", 0), st.led.Promise())
-				t.Step("producesync-r5")
-				r5 := rec("r5", "t", 1)
-				// ProduceSync installs its own promise; route the result
-				// through the ledger so r5 is counted like the others.
-				res := st.cl.ProduceSync(context.Background(), r5)
-				if len(res) != 1 || res[0].Record != r5 {
-					x.Violate("producesync-shape", "ProduceSync returned %d results", len(res))
-				} else {
-					st.led.Promise()(r5, res[0].Err)
-				}
-			})
-			x.Thread("T2", func(t *netctl.Thread) { disrupt(x, st, t) })
-			x.Thread("ENV", func(t *netctl.Thread) {
-				t.Step("move-t0-to-b1")
-				c.MoveTopicPartition("t", 0, 1)
-			})
-		},
-		Done: func(x *netctl.Exec) bool {
-			st := x.Data.(*state)
-			return x.ThreadsDone() && len(st.led.Outstanding()) == 0
-		},
-		Final: func(x *netctl.Exec) {
-			st := x.Data.(*state)
-			// After the last deviation the environment is well behaved: every
-			// promise must run within the virtual horizon.
-			deadline := time.Now().Add(3 * time.Minute)
-			for len(st.led.Outstanding()) > 0 && time.Now().Before(deadline) {
-				time.Sleep(100 * time.Millisecond)
-			}
-			if out := st.led.Outstanding(); len(out) > 0 {
-				x.Violate("promise-never", "records %v not promised 3 virtual minutes into a fault-free suffix", out)
-			}
-			st.led.Check(x, false)
-			if !st.closed {
-				if n, b := st.cl.BufferedProduceRecords(), st.cl.BufferedProduceBytes(); len(st.led.Outstanding()) == 0 && (n != 0 || b != 0) {
-					x.Violate("buffered-nonzero", "all promises ran but BufferedProduceRecords=%d BufferedProduceBytes=%d", n, b)
-				}
-				ctx, cancel := context.WithTimeout(context.Background(), 30*time.Second)
-				if err := st.cl.Flush(ctx); err != nil && len(st.led.Outstanding()) == 0 {
-					x.Violate("flush-stuck", "Flush with nothing buffered returned %v", err)
-				}
-				cancel()
-			}
-			select {
-			case err := <-st.flushed:
-				_ = err
-			default:
-			}
-			st.hooks.CheckProduce(x, st.led)
-			x.Observe("%s", st.led.Summary())
-		},
-	}
-}
-
-var plans = []nrun.Plan{
-	{Scenario: scenario("P-flush", 0, func(x *netctl.Exec, st *state, t *netctl.Thread) {
-		t.Step("flush")
-		ctx, cancel := context.WithTimeout(context.Background(), 200*time.Second)
-		defer cancel()
-		err := st.cl.Flush(ctx)
-		st.flushed <- err
-		if err != nil && !st.closed {
-			x.Violate("flush-error", "Flush returned %v", err)
-		}
-	}), QuickBudget: 1, ThoroughBudget: 2, ThoroughFaultOnlyFrom: 0},
-	{Scenario: scenario("P-abort", 0, func(x *netctl.Exec, st *state, t *netctl.Thread) {
-		t.Step("abort-buffered")
-		ctx, cancel := context.WithTimeout(context.Background(), 200*time.Second)
-		defer cancel()
-		if err := st.cl.AbortBufferedRecords(ctx); err != nil {
-			x.Violate("abort-error", "AbortBufferedRecords returned %v", err)
-		}
-	}), QuickBudget: 1, ThoroughBudget: 2},
-	{Scenario: scenario("P-purge", 5*time.Millisecond, func(x *netctl.Exec, st *state, t *netctl.Thread) {
-		t.Step("purge-t")
-		st.cl.PurgeTopicsFromClient("t")
-	}), QuickBudget: 1, ThoroughBudget: 2},
-	{Scenario: scenario("P-cancel", 0, func(x *netctl.Exec, st *state, t *netctl.Thread) {
-		t.Step("cancel-r2-ctx")
-		st.cancel2()
-	}), QuickBudget: 1, ThoroughBudget: 2},
-	{Scenario: scenario("P-close", 5*time.Millisecond, func(x *netctl.Exec, st *state, t *netctl.Thread) {
-		t.Step("close")
-		st.closed = true
-		st.cl.Close()
-	}), QuickBudget: 1, ThoroughBudget: 2},
-}
 
 func TestC01(t *testing.T) {
 	nrun.Main(t, &nrun.Check{
-		ID: "C01", TestName: "TestC01", Plans: plans,
+		ID: "C01", TestName: "TestC01", Plans: pscen.Plans(),
 		QuickTime: 75 * time.Second, ThorTime: 18 * time.Minute,
 		Rule: "engine N: every order of application calls, request/response frame deliveries, timer ticks and injected faults (connection kill before/after handling, NOT_LEADER, UNKNOWN_TOPIC, MESSAGE_TOO_LARGE, REQUEST_TIMED_OUT after append, stalled request) within k deviations of the default order, for five producer scenarios (Flush, AbortBufferedRecords, PurgeTopicsFromClient, context cancel, Close as the concurrent disruptor); distinct = distinct terminal outcomes (per-record promise result classes) per scenario",
 		Assume: []string{"kfake is the broker", "synctests build of xsync (C31 covers the channel mutexes)", "goroutine micro-interleavings inside one event are the Go runtime's (C30/C03 engine-S harnesses cover the preemption level)"},
 	})
-	_ = fmt.Sprint
 }
